@@ -527,8 +527,8 @@ def run(res):
                 "read_flatdict, get_fields; non-trivial = distinct (channel, call) or (channel, query)")
     stats = {}
     kinds = ["day", "epoch", "pow10", "subdir"]
-    nq = 40 if quick else 120
-    reps = 1 if quick else 4
+    nq = 40 if quick else 100
+    reps = 1 if quick else 2
     ci = 0
     tot_files = tot_samples = 0
     for rep in range(reps):
